@@ -23,8 +23,12 @@ from collections import deque
 from collections.abc import Iterable
 from fractions import Fraction
 
+import warnings
+
 import common
 from common import err_kind
+
+warnings.simplefilter("ignore")      # MemoryLeakWarning of a thub whose copy is never read (call refused)
 from props import c01_t1
 
 ID = "C01"
@@ -1019,35 +1023,483 @@ def regenerate(eng):
 
 
 # ------------------------------------------------------------------------------------------------
-# broadcast family (filled in below)
+# broadcast family
+#   case = {"entry": "bcast", "func": name, "kind": container kind, "xs": [element encodings],
+#           "route": "pos" | "kw", "before": [...], "after": [...], "kwargs": [[name, value], ...], "n": N}
 # ------------------------------------------------------------------------------------------------
-def generate_bcast(rng, tier, scale):
-    return []
+MATH_NAMES = ["acos", "acosh", "asin", "asinh", "atan", "atanh", "ceil", "cos", "cosh", "degrees", "erf", "erfc", "exp", "expm1",
+              "fabs", "floor", "frexp", "gamma", "isinf", "isnan", "lgamma", "modf", "radians", "sin", "sinh", "sqrt", "tan",
+              "tanh", "trunc"]
+INF, NAN = float("inf"), float("nan")
+POOLS = {
+    "default": [0.5, 0.25, -0.75, 0.0, 0.125], "ge1": [1.0, 1.5, 2.0, 4.0, 8.0], "pos": [0.5, 1.0, 2.5, 4.0, 3.0],
+    "unit": [0.5, 0.25, -0.75, 0.0, -0.5], "fact": [0, 1, 5, 3.0, 7], "note": [{"T": "C4"}, {"T": "A4"}, {"T": "Bb3"}, {"T": "F#2"}, {"T": "?"}],
+    "midi": [69, 60, 61.5, 0, 127], "freq": [440.0, 220.0, 261.5, 1000.0, 55.0], "erb": [1000.0, 440.0, 20.0, 8000.0, 100.0],
+    "infnan": [0.5, INF, -2.0, NAN], "cplx": [{"C": [0.0, 1.0]}, {"C": [1.0, -0.5]}, 0.5, -1.0],
+    "log": [1.0, 0.0, -1.0, 8.0, 0.5], "log1p": [0.0, -1.0, 1.0, -3.0], "db": [1.0, 0.0, 10.0, -0.5, 100.0],
+    "sign": [2, -3, 0, 0.5, -0.25], "abs": [-2, 3, -0.5, {"C": [3.0, 4.0]}], "sym": [{"S": "u0"}, {"S": "u1"}, {"S": "u2"}],
+}
+# name -> (decorator name, decorator pos, value pool, first int of a `range` argument, composite?)
+BFUNCS = dict((n, ("x", 0, "default", 0, False)) for n in MATH_NAMES)
+BFUNCS.update({
+    "acosh": ("x", 0, "ge1", 1, False), "acos": ("x", 0, "unit", 0, False), "asin": ("x", 0, "unit", 0, False),
+    "atanh": ("x", 0, "unit", 0, False), "sqrt": ("x", 0, "pos", 0, False), "gamma": ("x", 0, "pos", 1, False),
+    "lgamma": ("x", 0, "pos", 1, False), "isinf": ("x", 0, "infnan", 0, False), "isnan": ("x", 0, "infnan", 0, False),
+    "log": ("x", 0, "log", 1, False), "ln": ("x", 0, "log", 1, False), "log1p": ("x", 0, "log1p", 0, False),
+    "log10": ("x", 0, "log", 1, True), "log2": ("x", 0, "log", 1, True),
+    "absolute": ("number", 0, "abs", -2, False), "cexp": ("x", 0, "cplx", 0, False), "phase": ("z", 0, "cplx", 0, False),
+    "factorial": ("n", 0, "fact", 0, False), "dB10": ("data", 0, "db", 0, False), "dB20": ("data", 0, "db", 0, False),
+    "sign": ("x", 0, "sign", -1, False),
+    "midi2freq": ("midi_number", 0, "midi", 60, False), "str2midi": ("note_string", 0, "note", 0, False),
+    "freq2midi": ("freq", 0, "freq", 440, False), "midi2str": ("midi_number", 0, "midi", 60, False),
+    "str2freq": ("note_string", 0, "note", 0, True), "freq2str": ("freq", 0, "freq", 440, True),
+    "erb.gm90": ("freq", 0, "erb", 100, False), "erb.mg83": ("freq", 0, "erb", 100, False),
+})
+# the harness' own tracer behind the public decorator, for decorator parameters the library does not use itself
+TRACE_DECOS = {"trace.x0": ("x", 0), "trace.default": ("", None), "trace.xnone": ("x", None), "trace.pos1": ("", 1),
+               "trace.y1": ("y", 1), "trace.z2": ("z", 2)}
+for _k, (_dn, _dp) in TRACE_DECOS.items():
+    BFUNCS[_k] = (_dn, _dp, "sym", 0, False)
+
+SIZED = ["list", "tuple", "deque", "set", "frozenset"]
+LAZY = ["generator", "range", "map", "filter", "zip", "zip_longest", "enumerate"]
+STREAMS = ["stream", "thub", "ControlStream"]
+ALL_KINDS = ["scalar", "str"] + SIZED + LAZY + STREAMS
+TUPLE_ITEM_KINDS = ("zip", "zip_longest", "enumerate")
 
 
-def impl_bcast(c):
-    raise NotImplementedError
+class KW(object):
+    def __init__(self, name):
+        self.name = name
+
+
+def _trace_raw(*a, **k):
+    return Sym("f(%s)" % ",".join([repr(x) for x in a] + ["%s=%r" % kv for kv in sorted(k.items())]))
+
+
+_bfun_cache = {}
+
+
+def bfun(name):
+    """ the public broadcast function of the library """
+    if name in _bfun_cache:
+        return _bfun_cache[name]
+    import audiolazy
+    if name.startswith("trace."):
+        dn, dp = TRACE_DECOS[name]
+        f = audiolazy.elementwise(dn, dp)(_trace_raw)
+    elif name.startswith("erb."):
+        f = audiolazy.erb[name[4:]]
+    else:
+        f = getattr(audiolazy, name)
+    _bfun_cache[name] = f
+    return f
+
+
+def bfun_scalar(name):
+    """ the function "applied to one element": the undecorated function where the decorator kept it """
+    f = bfun(name)
+    return getattr(f, "__wrapped__", f)
+
+
+def apply_bcast_label(f, args):
+    pos, kw, i = [], {}, 0
+    while i < len(args):
+        if isinstance(args[i], KW):
+            kw[args[i].name] = args[i + 1]
+            i += 2
+        else:
+            pos.append(args[i])
+            i += 1
+    return bfun_scalar(f)(*pos, **kw)
+
+
+_apply_label_expr = apply_label
+
+
+def apply_label(f, args):        # noqa: F811  (extends the evaluator of the expression part)
+    if f.startswith("fn:"):
+        return apply_bcast_label(f[3:], args)
+    if f.startswith("kw:"):
+        return KW(f[3:])
+    return _apply_label_expr(f, args)
+
+
+def bcast_items(c):
+    """ the elements of the argument in iteration order, as the function sees them """
+    vals = [dec_val(x) for x in c["xs"]]
+    k = c["kind"]
+    if k in ("set", "frozenset"):
+        # iteration order of the very same construction (deterministic: PYTHONHASHSEED is fixed by ./check)
+        return vals, list(set(vals) if k == "set" else frozenset(vals))
+    if k == "range":
+        a = BFUNCS.get(c["func"], ("", 0, "", 0, False))[3]
+        vals = list(range(a, a + len(vals)))
+    if k in ("zip", "zip_longest"):
+        return vals, [(v,) for v in vals]
+    if k == "enumerate":
+        return vals, list(enumerate(vals))
+    if k in ("scalar", "str", "ControlStream"):
+        vals = vals[:1]
+    return vals, vals
+
+
+def bcast_layout(c):
+    """ ids: before..., [placeholder], after..., kwargs values..., then the items.  -> (request, env) """
+    dn, dp = BFUNCS[c["func"]][0], BFUNCS[c["func"]][1]
+    env, nxt = {}, [0]
+
+    def fresh(v):
+        i = nxt[0]
+        nxt[0] += 1
+        env[i] = v
+        return i
+    placeholder = object()
+    args = [fresh(dec_val(x)) for x in c.get("before", [])]
+    kwargs = []
+    if c.get("route", "pos") == "pos":
+        args.append(fresh(placeholder))
+        args += [fresh(dec_val(x)) for x in c.get("after", [])]
+    elif c["route"] == "kw":
+        kwargs.append([dn, fresh(placeholder)])
+    for kname, v in c.get("kwargs", []):
+        kwargs.append([kname, fresh(dec_val(v))])
+    _raw, items = bcast_items(c)
+    ids = [fresh(v) for v in items]
+    k = c["kind"]
+    lean_kind = {"thub": "streamSub", "ControlStream": "streamSub"}.get(k, k)
+    if k in ("scalar", "str"):
+        arg = {"c": "obj", "kind": lean_kind, "self": ids[0]}
+    elif k in SIZED:
+        arg = {"c": "sized", "kind": lean_kind, "tag": 0, "xs": ids}
+    elif k == "ControlStream":
+        arg = {"c": "lazy", "kind": lean_kind, "rep": ids[0]}
+    else:
+        arg = {"c": "lazy", "kind": lean_kind, "tag": 0, "xs": ids}
+    req = {"entry": "bcast", "f": "fn:" + c["func"], "dname": dn, "args": args, "kwargs": kwargs, "arg": arg, "n": c.get("n", 8)}
+    if dp is not None:
+        req["dpos"] = dp
+    return req, env
 
 
 def request_bcast(c):
-    return c
+    return bcast_layout(c)[0]
+
+
+def impl_bcast(c):
+    import types
+    from audiolazy import Stream, ControlStream, thub
+    raw, items = bcast_items(c)
+    k = c["kind"]
+    reads = [0]
+
+    def src():
+        for x in raw:
+            reads[0] += 1
+            yield x
+    counting = True
+    if k == "scalar":
+        arg, counting = raw[0], False
+    elif k == "str":
+        arg, counting = raw[0], False
+    elif k == "list":
+        arg, counting = list(raw), False
+    elif k == "tuple":
+        arg, counting = tuple(raw), False
+    elif k == "deque":
+        arg, counting = deque(raw), False
+    elif k == "set":
+        arg, counting = set(raw), False
+    elif k == "frozenset":
+        arg, counting = frozenset(raw), False
+    elif k == "generator":
+        arg = src()
+    elif k == "range":
+        arg, counting = (range(raw[0], raw[0] + len(raw)) if raw else range(0)), False
+    elif k == "map":
+        arg = map(lambda v: v, src())
+    elif k == "filter":
+        arg = filter(lambda v: True, src())
+    elif k == "zip":
+        arg = zip(src())
+    elif k == "zip_longest":
+        arg = it.zip_longest(src())
+    elif k == "enumerate":
+        arg = enumerate(src())
+    elif k == "stream":
+        arg = Stream(src())
+    elif k == "thub":
+        arg = thub(Stream(src()), 1)
+    elif k == "ControlStream":
+        arg, counting = ControlStream(raw[0]), False
+    else:
+        raise ValueError(k)
+    if k in ("set", "frozenset") and list(arg) != items:
+        return {"err": "UNSUPPORTED:set order"}
+    f = bfun(c["func"])
+    dn = BFUNCS[c["func"]][0]
+    a = [dec_val(x) for x in c.get("before", [])]
+    kw = dict((kn, dec_val(v)) for kn, v in c.get("kwargs", []))
+    if c.get("route", "pos") == "pos":
+        a = a + [arg] + [dec_val(x) for x in c.get("after", [])]
+    elif c["route"] == "kw":
+        kw[dn] = arg
+    try:
+        res = f(*a, **kw)
+    except Exception as e:
+        return {"err": err_kind(e), "reads0": reads[0] if counting else None, "applied": 0}
+    obs = {"reads0": reads[0] if counting else None}
+    if isinstance(res, types.GeneratorType):
+        out = "generator"
+    elif isinstance(res, Stream):
+        out = "stream"
+    elif k in SIZED:
+        out = ("same:" + k) if type(res) is type(arg) else "other:" + type(res).__name__
+    elif k in ("scalar", "str"):
+        out = "value"
+    else:
+        out = "other:" + type(res).__name__
+    obs["out"] = out
+    n = c.get("n", 8)
+    vals, end, per_next = [], "stop", []
+    if out in ("generator", "stream"):
+        try:
+            itr = iter(res)
+            for _ in range(n):
+                try:
+                    x = next(itr)
+                except StopIteration:
+                    break
+                vals.append(x)
+                per_next.append(reads[0])
+            else:
+                end = "limit"
+        except Exception as e:
+            end = "err:" + err_kind(e)
+            per_next.append(reads[0])
+    elif out.startswith("same:") or out.startswith("other:"):
+        try:
+            vals = list(res)
+        except Exception as e:
+            end = "err:" + err_kind(e)
+    else:
+        vals = [res]
+    if k in ("set", "frozenset"):
+        obs["items"] = sorted(canon(v) for v in vals)
+    else:
+        obs["items"] = [canon(v) for v in vals]
+    obs["end"] = end
+    obs["per_next"] = per_next if counting else None
+    obs["reads"] = reads[0] if counting else None
+    obs["applied"] = len(vals)
+    return obs
+
+
+def _bcast_expect(c, side, env):
+    """ what the terms of one side say the real call must show """
+    out = side["out"]
+    n = c.get("n", 8)
+    vals = []
+    err = None
+    for t in side.get("items", []):
+        try:
+            vals.append(eval_term(t, env))
+        except Exception as e:
+            err = err_kind(e)
+            break
+    return out, vals, err, n
+
+
+def _cmp_bcast_side(c, io, side, label, env, with_reads):
+    out = []
+    k = c["kind"]
+    exp_out, vals, err, n = _bcast_expect(c, side, env)
+    if exp_out == "keyError":
+        if io.get("err") != "KeyError":
+            out.append("%s: the call does not supply the argument (KeyError), impl: %r" % (label, io.get("err", io.get("out"))))
+        return out
+    eager = exp_out == "value" or exp_out.startswith("same:")
+    if eager and err is not None:
+        # the function raises on an element while the call itself runs
+        if io.get("err") != err:
+            out.append("%s: element function raises %s during the call, impl: %r" % (label, err, io.get("err", io.get("out"))))
+        return out
+    if "err" in io:
+        out.append("impl raised %s at call time, %s predicts %s" % (io["err"], label, exp_out))
+        return out
+    if io["out"] != exp_out:
+        out.append("kind of the result: impl %s, %s %s (argument: %s)" % (io["out"], label, exp_out, k))
+        return out
+    if k in ("set", "frozenset"):
+        try:
+            want = sorted(canon(v) for v in type(set())(vals))
+        except TypeError:
+            want = None
+        if want is not None and want != io["items"]:
+            out.append("%s: elements differ: impl %r vs %r" % (label, io["items"][:6], want[:6]))
+        return out
+    want = [canon(v) for v in vals]
+    if eager:
+        want_end = "stop"
+    else:
+        want_end = ("err:" + err) if err is not None else ("limit" if len(side["items"]) >= n else "stop")
+    if want != io["items"] or want_end != io["end"]:
+        j = next((i for i, (a, b) in enumerate(zip(want, io["items"])) if a != b), min(len(want), len(io["items"])))
+        out.append("%s differs at index %d: impl %s (%d items, end=%s) vs %s (%d items, end=%s)" % (
+            label, j, io["items"][j:j + 1], len(io["items"]), io["end"], want[j:j + 1], len(want), want_end))
+    if with_reads and not eager and io.get("reads0") is not None:
+        if io["reads0"] != 0:
+            out.append("the source was read %d times before the first next() (lazy kinds must stay lazy)" % io["reads0"])
+        if err is None and not io["end"].startswith("err"):
+            ok_steps = io["per_next"] == list(range(1, len(io["items"]) + 1))
+            if not ok_steps:
+                out.append("reads per next: %r (one read per next expected)" % (io["per_next"][:8],))
+            total = len(bcast_items(c)[1])
+            unread = dict((t, u) for t, u in side.get("unread", []))
+            if 0 in unread and total - unread[0] != io["reads"]:
+                out.append("read count: impl %d, model %d" % (io["reads"], total - unread[0]))
+    return out
 
 
 def compare_bcast(c, io, drv):
-    return []
+    if str(io.get("err", "")).startswith(("UNSUPPORTED", "UNMAPPED")):
+        return [("model", "harness problem: " + io["err"] + " " + io.get("trace", ""))]
+    _req, env = bcast_layout(c)
+    out = [("model", d) for d in _cmp_bcast_side(c, io, drv["model"], "model", env, True)]
+    out += [("spec", d) for d in _cmp_bcast_side(c, io, drv["spec"], "spec", env, False)]
+    return out
+
+
+def bcast_case(func, kind, xs, route="pos", n=8, **kw):
+    c = {"entry": "bcast", "func": func, "kind": kind, "xs": xs, "route": route, "n": n}
+    c.update(kw)
+    return c
+
+
+def generate_bcast(rng, tier, scale):
+    cases = []
+    names = sorted(BFUNCS)
+    if scale == 1:
+        for fn in names:
+            dn, dp, pool, _r0, composite = BFUNCS[fn]
+            xs = POOLS[pool]
+            for kind in ALL_KINDS:
+                if composite and kind in TUPLE_ITEM_KINDS:
+                    continue       # a composite (log10 = log(x, 10)) applied to a tuple item would broadcast again
+                if kind == "str" and pool != "note":
+                    vals = [{"T": "abc"}]
+                elif kind in ("set", "frozenset"):
+                    vals = [v for v in xs if not (isinstance(v, float) and v != v)]
+                else:
+                    vals = xs
+                if fn.startswith("trace.") and dp not in (None, 0):
+                    before = [{"S": "p%d" % i} for i in range(dp)]
+                    cases.append(bcast_case(fn, kind, vals, "pos", before=before, after=[{"S": "q"}], kwargs=[["w", {"S": "kw"}]]))
+                    if dn:
+                        cases.append(bcast_case(fn, kind, vals, "kw", before=before[:-1], kwargs=[["w", {"S": "kw"}]]))
+                    continue
+                cases.append(bcast_case(fn, kind, vals, "pos"))
+                if dn and not composite and kind in ("scalar", "list", "tuple", "generator", "stream", "set", "map"):
+                    cases.append(bcast_case(fn, kind, vals, "kw"))
+            # fewer items than asked for / more items than asked for / empty
+            for kind in ("generator", "stream", "list", "filter", "tuple", "deque", "set"):
+                cases.append(bcast_case(fn, kind, [], "pos"))
+                cases.append(bcast_case(fn, kind, xs, "pos", n=2))
+        # secondary arguments stay the same in every call
+        for kind in ALL_KINDS:
+            if kind == "str":
+                continue
+            lv = POOLS["log"] if kind not in ("set", "frozenset") else [1.0, 8.0, 0.5]
+            cases.append(bcast_case("log", kind, lv, "pos", after=[2]))
+            cases.append(bcast_case("log", kind, lv, "pos", kwargs=[["base", 10]]))
+            cases.append(bcast_case("log", kind, lv, "kw", kwargs=[["base", 2]]))
+            cases.append(bcast_case("midi2str", kind, POOLS["midi"], "pos", kwargs=[["sharp", False]]))
+            cases.append(bcast_case("midi2str", kind, POOLS["midi"], "pos", after=[False]))
+            cases.append(bcast_case("erb.gm90", kind, POOLS["erb"], "pos", after=[2.0]))
+            cases.append(bcast_case("erb.mg83", kind, POOLS["erb"], "kw", kwargs=[["Hz", 0.5]]))
+            for tn in sorted(TRACE_DECOS):
+                dn, dp = TRACE_DECOS[tn]
+                p = dp or 0
+                before = [{"S": "p%d" % i} for i in range(p)]
+                cases.append(bcast_case(tn, kind, POOLS["sym"], "pos", before=before, after=[{"S": "q0"}, {"S": "q1"}],
+                                        kwargs=[["k1", {"S": "v1"}], ["k2", {"S": "v2"}]]))
+                if dn:
+                    for nb in range(0, p + 1):
+                        if dp is not None and nb > dp:
+                            continue
+                        if dp is not None and nb == dp + 1:
+                            continue
+                        # keyword route needs fewer than pos+1 positional arguments
+                        if dp is None or nb <= dp:
+                            cases.append(bcast_case(tn, kind, POOLS["sym"], "kw", before=before[:nb],
+                                                    kwargs=[["k1", {"S": "v1"}], ["k2", {"S": "v2"}]]))
+        # the argument is not supplied at all
+        cases.append(bcast_case("trace.y1", "list", POOLS["sym"], "none", before=[{"S": "only"}]))
+        cases.append(bcast_case("trace.pos1", "list", POOLS["sym"], "none", before=[{"S": "only"}]))
+        cases.append(bcast_case("sin", "list", POOLS["default"], "none"))
+    nrand = (150 if tier == "quick" else 3000) * scale
+    for _ in range(nrand):
+        fn = rng.choice(names)
+        dn, dp, pool, _r0, composite = BFUNCS[fn]
+        kind = rng.choice([k for k in ALL_KINDS if not (composite and k in TUPLE_ITEM_KINDS)])
+        base = POOLS[pool]
+        m = rng.choice([0, 1, 2, 3, 5, 8])
+        vals = [rng.choice(base) for _ in range(m)] or ([] if kind not in ("scalar", "str", "ControlStream") else base[:1])
+        if kind == "str" and pool != "note":
+            vals = [{"T": rng.choice(["abc", "", "x"])}]
+        if kind in ("set", "frozenset"):
+            vals = [v for v in vals if not (isinstance(v, float) and v != v)]
+        route = "pos"
+        before = []
+        if fn.startswith("trace.") and dp:
+            before = [{"S": "p%d" % i} for i in range(dp)]
+        elif dn and not composite and rng.random() < 0.3 and not (dp and dp > 0):
+            route = "kw"
+        cases.append(bcast_case(fn, kind, vals, route, n=rng.choice([1, 2, 4, 8, 12]), before=before))
+    return cases
 
 
 def tally_bcast(eng, c, io):
-    pass
+    eng.count("bcast_func", c["func"])
+    eng.count("bcast_kind", c["kind"])
+    eng.count("bcast_route", c.get("route", "pos") + ("+extra" if c.get("before") or c.get("after") or c.get("kwargs") else ""))
+    eng.count("bcast_out", io.get("out", "raised:" + str(io.get("err"))))
+    if "err" not in io:
+        eng.count("bcast_end", io["end"])
+        eng.count("bcast_items", min(len(io["items"]), 10))
+        if io.get("reads0") is not None and io.get("out") in ("generator", "stream"):
+            eng.count("bcast_laziness_checked", "reads0=%d" % io["reads0"])
 
 
 def shrink_bcast(c):
-    return []
+    if c["xs"] and c["kind"] not in ("scalar", "str", "ControlStream"):
+        yield dict(c, xs=c["xs"][:-1])
+        yield dict(c, xs=c["xs"][1:])
+    for k in ("before", "after", "kwargs"):
+        if c.get(k) and not c["func"].startswith("trace."):
+            yield dict(c, **{k: []})
+    if c.get("n", 8) > 1:
+        yield dict(c, n=c.get("n", 8) - 1)
 
 
 def neighbours_bcast(c):
-    return []
+    for kind in ALL_KINDS:
+        if kind != c["kind"] and not (BFUNCS[c["func"]][4] and kind in TUPLE_ITEM_KINDS):
+            xs = c["xs"] if kind != "str" or BFUNCS[c["func"]][2] == "note" else [{"T": "abc"}]
+            if kind in ("scalar", "ControlStream") and not xs:
+                continue
+            yield dict(c, kind=kind, xs=xs)
+    for fn in ("sin", "trace.x0", "log", "midi2str"):
+        if fn != c["func"] and not c.get("before") and not c.get("after") and not c.get("kwargs") and c.get("route", "pos") == "pos":
+            yield bcast_case(fn, c["kind"], POOLS[BFUNCS[fn][2]] if c["kind"] != "str" else [{"T": "A4"}], "pos")
 
 
 def classify_bcast(c, io, drv):
-    return "bcast"
+    spec = drv.get("spec", {})
+    if "err" in io:
+        return "bcast:%s/%s:raised:%s" % (c["func"], c["kind"], io["err"])
+    if io.get("out") != spec.get("out"):
+        return "bcast:%s/%s:kind:%s-instead-of-%s" % (c["func"], c["kind"], io.get("out"), spec.get("out"))
+    if io.get("reads0"):
+        return "bcast:%s/%s:read-at-call-time" % (c["func"], c["kind"])
+    return "bcast:%s/%s:wrong-element" % (c["func"], c["kind"])
